@@ -72,6 +72,10 @@ class AbortInjector:
         else:
             if event != "line":
                 return self._local
+            if frame.f_lineno in _inert_lines(frame.f_code):
+                # nothing on this line can run a signal handler or any other Python code (e.g. an `except X:` clause being
+                # matched while an exception propagates): an exception raised by a handler cannot surface here
+                return self._local
             key = (frame.f_code.co_filename[len(SRC) + 1:], frame.f_lineno)
         n = self.count
         self.count += 1
@@ -97,6 +101,31 @@ class AbortInjector:
 
 
 import dis as _dis
+
+# Instructions that neither check the eval breaker nor can call into Python or C code that does: loads/stores of locals, globals
+# and constants, stack shuffling, exception-table bookkeeping and jumps forward.
+_INERT_OPS = {"NOP", "CACHE", "PUSH_EXC_INFO", "POP_EXCEPT", "CHECK_EXC_MATCH", "RERAISE", "LOAD_GLOBAL", "LOAD_FAST", "LOAD_FAST_CHECK",
+              "LOAD_FAST_AND_CLEAR", "LOAD_CONST", "STORE_FAST", "DELETE_FAST", "POP_TOP", "COPY", "SWAP", "PUSH_NULL", "JUMP_FORWARD",
+              "POP_JUMP_IF_TRUE", "POP_JUMP_IF_FALSE", "POP_JUMP_IF_NONE", "POP_JUMP_IF_NOT_NONE", "LOAD_DEREF", "STORE_DEREF",
+              "MAKE_CELL", "COPY_FREE_VARS", "LOAD_CLOSURE", "EXTENDED_ARG", "END_FOR", "IS_OP"}
+_inert_cache = {}
+
+
+def _inert_lines(code):
+    """Lines of `code` all of whose instructions are inert (see _INERT_OPS)."""
+    r = _inert_cache.get(code)
+    if r is None:
+        per_line = {}
+        line = None
+        for ins in _dis.get_instructions(code):
+            if ins.starts_line is not None:
+                line = ins.starts_line
+            per_line.setdefault(line, []).append(ins.opname)
+        r = frozenset(l for l, ops in per_line.items() if l is not None and all(o in _INERT_OPS for o in ops))
+        _inert_cache[code] = r
+    return r
+
+
 _OPNAME = _dis.opname
 _EVAL_BREAKER_OPS = {_dis.opmap[n] for n in ("RESUME", "JUMP_BACKWARD") if n in _dis.opmap}
 
